@@ -137,57 +137,82 @@ def bisectLeftLoop {α} (ylt : α → Bool) (a : Array α) : Nat → Nat → Nat
 def bisectLeft {α} (ylt : α → Bool) (a : List α) : Nat :=
   bisectLeftLoop ylt a.toArray (a.length + 1) 0 a.length
 
-/-- the state `max(0, bisect(tagged_beats, (beat, tag)) - 1)` -/
-def priorState (td : TimingData) (beat : Rat) (tag : Tag) : TState :=
+/-- what `_retime_events` precomputes: the state list (also as an array for the bisect loops) -/
+structure Engine where
+  td : TimingData
+  ss : List TState
+  arr : Array TState
+  init : TState
+
+def mkEngine (td : TimingData) : Engine :=
   let ss := states td
-  let i := bisectRight (fun (s : TState) => keyLT (beat, tag) (s.beat, s.tag)) ss
-  ss.getD (i - 1) (initState td)
+  { td := td, ss := ss, arr := ss.toArray, init := initState td }
+
+/-- the state `max(0, bisect(tagged_beats, (beat, tag)) - 1)` -/
+def Engine.priorState (e : Engine) (beat : Rat) (tag : Tag) : TState :=
+  let i := bisectRightLoop (fun (s : TState) => keyLT (beat, tag) (s.beat, s.tag)) e.arr (e.arr.size + 1) 0 e.arr.size
+  e.arr.getD (i - 1) e.init
 
 /-- `TimingEngine.time_at` -/
-def timeAt (td : TimingData) (beat : Rat) (tag : Tag := .stop) : Rat :=
-  let s := priorState td beat tag
+def Engine.timeAt (e : Engine) (beat : Rat) (tag : Tag := .stop) : Rat :=
+  let s := e.priorState beat tag
   s.time + s.timeUntil beat tag
 
 /-- `TimingEngine.bpm_at` -/
-def bpmAt (td : TimingData) (beat : Rat) : Rat :=
-  if beat < 0 then (td.bpms.headD (0, 0)).2 else (priorState td beat .bpm).bpm
+def Engine.bpmAt (e : Engine) (beat : Rat) : Rat :=
+  if beat < 0 then (e.td.bpms.headD (0, 0)).2 else (e.priorState beat .bpm).bpm
 
 /-- `TimingEngine.hittable` -/
-def hittable (td : TimingData) (beat : Rat) : Bool :=
-  let s := priorState td beat .stopEnd
+def Engine.hittable (e : Engine) (beat : Rat) : Bool :=
+  let s := e.priorState beat .stopEnd
   if !s.warp then true
   else if (s.tag = .stopEnd ∨ s.tag = .delayEnd) ∧ beat = s.beat then true
   else false
 
+/-- `TimingState.beats_until` before rounding (`none` while paused) -/
+def TState.beatsUntilRaw (s : TState) (time : Rat) : Option Rat :=
+  if s.tag = .stop ∨ s.tag = .delay then none else some ((time - s.time) / 60 * s.bpm)
+
 /-- `TimingState.beats_until` (exact: the float product is replaced by the rational one) -/
 def TState.beatsUntil (s : TState) (time : Rat) : Rat :=
-  if s.tag = .stop ∨ s.tag = .delay then 0 else roundToTick ((time - s.time) / 60 * s.bpm)
+  match s.beatsUntilRaw time with
+  | none => 0
+  | some x => roundToTick x
 
-/-- `TimingEngine.beat_at` as repaired: search on the state times alone -/
-def beatAt (td : TimingData) (time : Rat) (tag : Tag := .stop) : Rat :=
-  let ss := states td
-  let i := if tag = .warp then bisectLeft (fun (s : TState) => s.time < time) ss
-           else bisectRight (fun (s : TState) => time < s.time) ss
-  let s := ss.getD (i - 1) (initState td)
+/-- the state `beat_at` extrapolates from, as repaired: search on the state times alone -/
+def Engine.priorByTime (e : Engine) (time : Rat) (tag : Tag) : TState :=
+  let i := if tag = .warp then bisectLeftLoop (fun (s : TState) => s.time < time) e.arr (e.arr.size + 1) 0 e.arr.size
+           else bisectRightLoop (fun (s : TState) => time < s.time) e.arr (e.arr.size + 1) 0 e.arr.size
+  e.arr.getD (i - 1) e.init
+
+/-- `TimingEngine.beat_at` -/
+def Engine.beatAt (e : Engine) (time : Rat) (tag : Tag := .stop) : Rat :=
+  let s := e.priorByTime time tag
   s.beat + s.beatsUntil time
 
 /-- The algorithm before the repair: `bisect` on the (time, tag) pairs in state order. Kept for the
 counter-example theorem of C12. -/
-def beatAtOld (td : TimingData) (time : Rat) (tag : Tag := .stop) : Rat :=
-  let ss := states td
-  let i := bisectRight (fun (s : TState) => keyLT (time, tag) (s.time, s.tag)) ss
-  let s := ss.getD (i - 1) (initState td)
+def Engine.beatAtOld (e : Engine) (time : Rat) (tag : Tag := .stop) : Rat :=
+  let i := bisectRightLoop (fun (s : TState) => keyLT (time, tag) (s.time, s.tag)) e.arr (e.arr.size + 1) 0 e.arr.size
+  let s := e.arr.getD (i - 1) e.init
   s.beat + s.beatsUntil time
+
+def timeAt (td : TimingData) (beat : Rat) (tag : Tag := .stop) : Rat := (mkEngine td).timeAt beat tag
+def bpmAt (td : TimingData) (beat : Rat) : Rat := (mkEngine td).bpmAt beat
+def hittable (td : TimingData) (beat : Rat) : Bool := (mkEngine td).hittable beat
+def beatAt (td : TimingData) (time : Rat) (tag : Tag := .stop) : Rat := (mkEngine td).beatAt time tag
+def beatAtOld (td : TimingData) (time : Rat) (tag : Tag := .stop) : Rat := (mkEngine td).beatAtOld time tag
 
 inductive Unhittable | tapToFake | dropNote | keepNote
 deriving Repr, DecidableEq
 
 /-- `simfile.notes.timed.time_notes` -/
 def timeNotes (td : TimingData) (opt : Unhittable) (notes : List Note) : List (Rat × Note) :=
+  let e := mkEngine td
   notes.filterMap fun n =>
-    if hittable td n.beat || opt = .keepNote then some (timeAt td n.beat, n)
+    if e.hittable n.beat || opt = .keepNote then some (e.timeAt n.beat, n)
     else if opt = .tapToFake then
-      (if n.ntype = cTAP then some (timeAt td n.beat, { n with ntype := cFAKE }) else none)
+      (if n.ntype = cTAP then some (e.timeAt n.beat, { n with ntype := cFAKE }) else none)
     else none
 
 end Simfile
